@@ -130,10 +130,15 @@ package validator
 //@   ensures [C03:severity] result["resultSeverity"] == box(string, "http://www.w3.org/ns/shacl#" + strTitle(level))
 //@   ensures [C03:frame] forall m map[string]any, k string :: (k != "@id" && !(m == raw.(map[string]any) && k == "resultSeverity")) ==> (has(m, k) == old(has(m, k)) && m[k] == old(m[k]))
 
+//@ func allObjects(results []any) bool
+//@   ensures [C03,C17:all-objects] result == (forall i int :: (0 <= i && i < len(results)) ==> (is(results[i], map[string]any) && results[i].(map[string]any) != nil))
+//@   loop 1 /* for _, r := range results */
+//@     invariant [C03] forall i int :: (0 <= i && i < #i) ==> (is(results[i], map[string]any) && results[i].(map[string]any) != nil)
+
 //@ func buildResults(violations []any, warnings []any, infos []any) []any
 //@   requires-assumed [C03:A-OPA4] forall i int, j int :: (0 <= i && i < len(violations) && 0 <= j && j < len(violations) && i != j ==> violations[i] != violations[j]) && (0 <= i && i < len(warnings) && 0 <= j && j < len(warnings) && i != j ==> warnings[i] != warnings[j]) && (0 <= i && i < len(infos) && 0 <= j && j < len(infos) && i != j ==> infos[i] != infos[j])
 //@   requires-assumed [C03:A-OPA4] forall i int, j int :: (0 <= i && i < len(violations) && 0 <= j && j < len(warnings) ==> violations[i] != warnings[j]) && (0 <= i && i < len(violations) && 0 <= j && j < len(infos) ==> violations[i] != infos[j]) && (0 <= i && i < len(warnings) && 0 <= j && j < len(infos) ==> warnings[i] != infos[j])
-//@   requires-assumed [C03:A-OPA8] forall i int :: (0 <= i && i < len(violations) ==> is(violations[i], map[string]any) && violations[i].(map[string]any) != nil) && (0 <= i && i < len(warnings) ==> is(warnings[i], map[string]any) && warnings[i].(map[string]any) != nil) && (0 <= i && i < len(infos) ==> is(infos[i], map[string]any) && infos[i].(map[string]any) != nil)
+//@   requires [C03,C17:results-are-objects] forall i int :: (0 <= i && i < len(violations) ==> is(violations[i], map[string]any) && violations[i].(map[string]any) != nil) && (0 <= i && i < len(warnings) ==> is(warnings[i], map[string]any) && warnings[i].(map[string]any) != nil) && (0 <= i && i < len(infos) ==> is(infos[i], map[string]any) && infos[i].(map[string]any) != nil)
 //@   ensures [C03,C12:count] len(result) == len(violations) + len(warnings) + len(infos)
 //@   ensures [C03,C12:allocated] forall k int :: 0 <= k && k < len(result) ==> (is(result[k], map[string]any) && ref(result[k].(map[string]any)) <= alloc)
 //@   ensures [C03:violations] forall k int :: 0 <= k && k < len(violations) ==> (result[k] == violations[k] && result[k].(map[string]any)["resultSeverity"] == box(string, "http://www.w3.org/ns/shacl#Violation"))
@@ -182,7 +187,6 @@ package validator
 
 //@ func BuildReport(resultPtr *rego.ResultSet, validationConfig c.ValidationConfiguration, reportConfig c.ReportConfiguration) (string, error)
 //@   requires resultPtr != nil && validationConfig != nil
-//@   requires-assumed [C17:A-OPA8] len(deref(resultPtr)) >= 1 ==> (len(deref(resultPtr)[0].Expressions) >= 1 && deref(resultPtr)[0].Expressions[0] != nil && is(deref(deref(resultPtr)[0].Expressions[0]).Value, map[string]any) && is(deref(deref(resultPtr)[0].Expressions[0]).Value.(map[string]any)["profile"], string) && is(deref(deref(resultPtr)[0].Expressions[0]).Value.(map[string]any)["violation"], []any) && is(deref(deref(resultPtr)[0].Expressions[0]).Value.(map[string]any)["warning"], []any) && is(deref(deref(resultPtr)[0].Expressions[0]).Value.(map[string]any)["info"], []any))
 //@   verify [C03]
 
 // ---- lexical index (C14) ----------------------------------------------------------------------------------------------
